@@ -293,8 +293,19 @@ add("wrap_deflate::w_compressor_reset", ["C18"],
     replay=dict(kind="native", vals=[], cmd=["reset-check"], sig=lambda env: "reset-leaves-stale-state"))
 
 
+# Harnesses that exist in the crate but do not fit this machine (resource failure or > 1 h); they are
+# never selected by ./check and are not part of any claim (DESIGN.md 3.2).
+EXPERIMENTAL = {
+    "wrap_inflate::w_vec_limit", "wrap_deflate::w_compress_to_vec", "misc::w_inflate_reset_policies", "misc::w_inflate_state_clone",
+    "wrap_inflate::w_inflate_c2_finish_finish", "wrap_inflate::w_inflate_c2_none_none", "wrap_inflate::w_inflate_c2_none_finish",
+}
+
+
 def all_harnesses():
     gen = os.path.join(VERIF, "kani", "src", "gen", "registry.json")
+    for h in H:
+        if h["name"] in EXPERIMENTAL:
+            h["tier"] = "experimental"
     out = list(H)
     if os.path.exists(gen):
         out += json.load(open(gen))
